@@ -25,7 +25,7 @@ POOL = ["2-clique", "3-clique", "2-clique-blue", "2-clique-red", "a", "b", "tau"
 
 
 def gen_cases(tier, seed):
-    n = 500 if tier == "quick" else 10000
+    n = 500 if tier == "quick" else 60000
     return [{"seed": seed * 100207 + i} for i in range(n)]
 
 
